@@ -557,6 +557,55 @@ example : Gen.StatusFlags.needRayPrimal 1 = true ∧ Gen.StatusFlags.needRayDual
           Gen.StatusFlags.needRayPrimal 2 = false ∧ Gen.StatusFlags.needRayDual 2 = true ∧
           Gen.StatusFlags.needRayPrimal 3 = true ∧ Gen.StatusFlags.needRayDual 0 = false := by decide
 
+/-! ## 8. Round 8 — rounding (`mip:round`) cannot change the reported code; when its note appears -/
+
+/-- the generated steps of `RoundSolution` (+ inlined `ModifySolveCodeAndMessageAfterRounding`, `DoRound`) equal the hand model
+    for every option value and every number of fractional variables; in particular the generated `modify solve code`
+    guard (false: no such step exists) equals `roundChangesCode` -/
+theorem C10_gen_round_guards (x : RoundCtx) :
+    roundGuard "write rounding note" x = roundNoteShown x ∧ roundGuard "note says \"would be\"" x = roundNoteWouldBe x ∧
+    Gen.StatusFlags.roundAssigns x = roundValuesAssigned x ∧ roundGuard "modify solve code" x = roundChangesCode x := by
+  have h0 := land_mask_decide x.round 0
+  have h2 := land_mask_decide x.round 2
+  have e0 := land_mask_decide_eq x.round 0
+  have e2 := land_mask_decide_eq x.round 2
+  simp only [Nat.pow_zero, Nat.reducePow] at h0 h2 e0 e2
+  simp only [roundGuard, Gen.StatusFlags.roundTable, Gen.StatusFlags.roundAssigns, List.find?, roundNoteShown, roundNoteWouldBe,
+             roundValuesAssigned, roundChangesCode]
+  refine ⟨?_, ?_, ?_, ?_⟩ <;> simp [h0, h2, e0, e2]
+
+/-- no step of the rounding code changes the solve code (no `SetStatus` / `Abort` / assignment to `status_` anywhere in
+    `RoundSolution`, `ModifySolveCodeAndMessageAfterRounding`, `DoRound`); labels of the steps (tripwire part) -/
+theorem C10_gen_round_steps :
+    Gen.StatusFlags.roundTable.map (·.1) =
+      ["call ModifySolveCodeAndMessageAfterRounding", "write rounding note", "note says \"would be\""] ∧
+    (∀ p ∈ Gen.StatusFlags.roundTable, p.1 ≠ "modify solve code") := by decide
+
+/-- **the code written is the code reported whatever `mip:round` is** (also with bit 2, "Modify solve_result") and
+    however many variables were fractional -/
+theorem C10_code_echo_under_rounding (a : Answer) (x : RoundCtx) :
+    roundGuard "modify solve code" x = false ∧ (reportGen a).codeWritten = a.code := by
+  refine ⟨?_, (C10_code_echo_generated a).1⟩
+  rw [(C10_gen_round_guards x).2.2.2]; rfl
+
+/-- the rounding note reaches the message only for candidate codes, with bit 4 of `mip:round` and a fractional integer variable;
+    it says "would be" exactly when bit 1 is not set -/
+theorem C10_round_note_only_candidates (a : Answer) (x : RoundCtx) (h : roundNoteInMessage a x = true) :
+    candidate a.code = true ∧ x.round.testBit 2 = true ∧ x.nRounded > 0 ∧ (roundNoteWouldBe x = true ↔ x.round.testBit 0 = false) := by
+  unfold roundNoteInMessage roundNoteShown at h
+  simp only [Bool.and_eq_true, decide_eq_true_eq] at h
+  refine ⟨(C10_solvedOrFeasible_iff a.code).mp h.1.1, h.2.2, by omega, ?_⟩
+  unfold roundNoteWouldBe roundNoteShown
+  have hn : decide (x.nRounded ≠ 0) = true := decide_eq_true h.2.1
+  rw [hn, h.2.2]; cases x.round.testBit 0 <;> simp
+-- instances: mip:round=7 with one fractional variable on a limit code (note, "rounded"); mip:round=6 ("would be"); mip:round=3 (no note);
+-- bit 2 alone changes nothing
+example : roundNoteInMessage { code := 402, nObj := 1, hasPrimal := true, hasDual := true, roundOpt := true, isMIP := true } { round := 7, nRounded := 1 } = true ∧
+          roundNoteWouldBe { round := 7, nRounded := 1 } = false ∧ roundNoteWouldBe { round := 6, nRounded := 2 } = true ∧
+          roundNoteShown { round := 3, nRounded := 1 } = false ∧ roundNoteShown { round := 7, nRounded := 0 } = false := by decide
+example : roundGuard "modify solve code" { round := 2, nRounded := 5 } = false ∧ roundGuard "write rounding note" { round := 2, nRounded := 5 } = false := by decide
+example : roundNoteInMessage { code := 502, nObj := 1, hasPrimal := true, hasDual := true, roundOpt := true, isMIP := true } { round := 7, nRounded := 1 } = false := by decide
+
 /-! ## non-vacuity (concrete instances; named so that a failure is attributed to them) -/
 theorem C10_witness_solved : isProblemSolved 0 = true ∧ isProblemSolved 99 = true ∧ isProblemSolved 100 = false := by decide
 theorem C10_witness_ranges : classify 402 = .limitFeas ∧ classify 1000 = .unclassified ∧ classify (-1) = .unclassified := by decide
